@@ -37,6 +37,9 @@ def cases(tier):
     for k in ((1, 2) if tier == "quick" else (1, 2, 3)):
         out.append({"name": f"generator/k{k}", "kind": "generator", "k": k, "K": 3 if tier == "quick" else 4})
         out.append({"name": f"generate/k{k}", "kind": "single", "k": k})
+    # the same system object iterated again after an earlier, abandoned or completed, use of it
+    for pre in ("partial", "complete", "single-generate"):
+        out.append({"name": f"generator-after-{pre}/k2", "kind": "generator", "k": 2, "K": 2 if tier == "quick" else 3, "pre": pre})
     out.append({"name": "non-generable", "kind": "nongen"})
     out.append({"name": "real-components", "kind": "real"})
     return out
@@ -101,9 +104,25 @@ def run_case(case, g, tier, res):
             c.assume(S <= K * 10)
             rng = SymRng()
             System.generator.fget.__defaults__ = (rng,)
+            pre = case.get("pre")
+            if pre:
+                # history on the same System object before the iteration that is judged
+                try:
+                    if pre == "partial":
+                        it0 = iter(system.generator)
+                        next(it0)  # one molecule is taken, then the iteration is abandoned (the iterator stays alive)
+                        c.data["keepalive"] = it0
+                    elif pre == "complete":
+                        for _m in system.generator:
+                            pass
+                    else:
+                        system.generate(rng=rng)
+                except RuntimeError:
+                    raise core.Infeasible()  # histories that end in a refusal are covered by the plain cases
+            n0, r0 = len(log["generated"]), len(rng.calls)
             yielded = []
             exc = None
-            info = lambda: {"S": S, **{f"m{j}": fm.weight for j, fm in enumerate(log["generated"])},
+            info = lambda: {"S": S, "pre": pre or "", "n0": n0, "r0": r0, **{f"m{j}": fm.weight for j, fm in enumerate(log["generated"])},
                             **{f"full{j}": (fm.fully_generated if isinstance(fm.fully_generated, bool) else core.Ite(fm.fully_generated, 1, 0)) for j, fm in enumerate(log["generated"])},
                             "picks": str([r.index for r in rng.calls]), **{f"f{i}": f for i, f in enumerate(fr)}}
             try:
@@ -113,12 +132,15 @@ def run_case(case, g, tier, res):
             except RuntimeError as e:
                 exc = e
             # provenance and completeness
+            gen_all = log["generated"]
+            log_gen = gen_all[n0:]
+            calls = rng.calls[r0:]
             for j, m in enumerate(yielded):
-                ok = isinstance(m, FakeMolGen) and m is log["generated"][j] and m.comp == rng.calls[j].items[rng.calls[j].index]
+                ok = isinstance(m, FakeMolGen) and j < len(log_gen) and m is log_gen[j] and j < len(calls) and m.comp == calls[j].items[calls[j].index]
                 c.prove(ok, "yielded molecule is the picked component's generate() result", detail("a yielded object is not the picked declared component's product", info))
                 c.prove(m.fully_generated, "only fully generated molecules are yielded", detail("a partially generated molecule is yielded", info))
             n = len(yielded)
-            gen = log["generated"]
+            gen = log_gen
             if exc is None:
                 c.prove(len(gen) == n, "every generated molecule is yielded", detail("a generated molecule is dropped", info))
                 tot_before = sum((m.weight for m in yielded[:-1]), 0.0)
@@ -303,6 +325,22 @@ def replay(rp, gb):
     rng = ScriptedRng(picks)
     if kind == "generator":
         System.generator.fget.__defaults__ = (rng,)
+        pre = vals.get("pre") or ""
+        keep = None
+        try:
+            if pre == "partial":
+                keep = iter(system.generator)
+                next(keep)
+            elif pre == "complete":
+                for _m in system.generator:
+                    pass
+            elif pre:
+                system.generate(rng=rng)
+        except (ReplayDone, RuntimeError) as e:
+            return False, f"history could not be replayed: {type(e).__name__}"
+        n0, r0 = len(gen), rng.k
+        picks = picks[r0:]
+        gen_all = gen
         out, exc = [], None
         try:
             for m in system.generator:
@@ -314,10 +352,11 @@ def replay(rp, gb):
         except RuntimeError as e:
             exc = e
         bad = []
+        gen = gen_all[n0:]
         for j, m in enumerate(out):
             if not m.fully_generated:
                 bad.append("incomplete molecule yielded")
-            if m is not gen[j] or m.comp != picks[j]:
+            if j >= len(gen) or j >= len(picks) or m is not gen[j] or m.comp != picks[j]:
                 bad.append("foreign molecule")
         if exc is None:
             tot = sum(m.weight for m in out)
